@@ -16,7 +16,7 @@ from .fourier import fourier_transform
 from .hilbert import hilbert_transform
 from .inverse_hilbert import inverse_hilbert_transform
 from .units import u as uu
-from sympy import Heaviside, limit, Expr as symExpr
+from sympy import Heaviside, DiracDelta, limit, Expr as symExpr
 
 
 __all__ = ('TimeDomainExpression', 'texpr', )
@@ -161,7 +161,10 @@ class TimeDomainExpression(TimeDomain, Expr):
         units = result.units
         result = result(var)
         result = result.expand(diracdelta=True, wrt=var)
-        result = result.simplify()
+        if not result.sympy.has(DiracDelta):
+            # simplify() would put impulses over a common denominator
+            # that vanishes at the impulse
+            result = result.simplify()
         result.units = units
         return result
 
